@@ -665,6 +665,12 @@ func (c *EvalCtx) lvalue(m string) lval {
 			var path []sel
 			var key, ptr string
 			var rootT types.Type
+			// a local struct variable that lives in the heap (its address escapes): start at its own cell
+			if id, isID := se.X.(*ast.Ident); isID && pointee(t) == nil {
+				if b := c.vars[id.Name]; b != nil && b.loc != nil && b.loc.kind == lHeap && len(b.loc.path) == 0 {
+					key, ptr, rootT = b.loc.key, b.loc.ptr, b.loc.rootT
+				}
+			}
 			for _, i := range idx {
 				if pt := pointee(t); pt != nil {
 					// restart at the pointed-to object
